@@ -138,7 +138,9 @@ func hasToken(d map[string]string, token string) bool {
 
 func getDurationDirective(d map[string]string, token string) (dur time.Duration, valid bool) {
 	if v, ok := d[token]; ok {
-		return RawDeltaSeconds(v).Value()
+		// Recipients accept the token and the quoted-string form of an argument
+		// (RFC 9111 §5.2): max-age="60" is max-age=60.
+		return RawDeltaSeconds(ParseQuotedString(v)).Value()
 	}
 	return
 }
